@@ -262,11 +262,7 @@ theorem tail_packed {t : Tracker} {force : Bool} {e : Nat} {lk : Layout} (h : PI
       (padList pad).any (fun f => f.blob == some .panic) = false ∧
       (padList pad).any (·.containsAlign) = false ∧ uo pre = [] ∧
       placeFields (some n) e ma (padList pad) = (pre, c', ma) ∧ (c' = e ∨ c' = l.size) := by
-  have hu : t.tailPaddingUnderflows l = false := by
-    unfold Tracker.tailPaddingUnderflows
-    rw [h.off]
-    simp only [Bool.and_eq_false_iff, decide_eq_false_iff_not]
-    right; omega
+  have hu : t.tailPaddingUnderflows l = false := rfl
   unfold Tracker.addTailPadding
   rw [h.fp, h.nru, h.nfa, h.off]
   cases force with
@@ -282,7 +278,7 @@ theorem tail_packed {t : Tracker} {force : Bool} {e : Nat} {lk : Layout} (h : PI
       simp only [Nat.zero_max] at hbf
       refine ⟨{ t with paddingCount := t.paddingCount + 1, maxFieldAlign := max t.maxFieldAlign 0 },
         some { idx := t.paddingCount, layout := { size := l.size - e, align := 0 } },
-        [(.padding t.paddingCount, e)], l.size, by simp [he, Tracker.paddingField], hu, h.setCount _ _,
+        [(.padding t.paddingCount, e)], l.size, by (have hlt : ¬ e ≥ l.size := by omega); simp [hlt, Tracker.paddingField], hu, h.setCount _ _,
         by simp, ?_, ?_, rfl, ?_, Or.inr rfl⟩
       · simpa [padList, padField, hbf] using hb
       · simp [padList, padField, hbf]
